@@ -109,10 +109,14 @@ def name_entry(root, cwd, arg, before, mounts):
 
 
 def affinity(N, b):
-    """could trash-put have derived the trash name N from the base name b?"""
+    """could trash-put have derived the trash name N from the base name b?
+    N is b, or b plus a '_<n>' suffix, or - after ENAMETOOLONG - a prefix of b
+    (possibly empty) plus such a suffix"""
+    import re
     if N == b or N.startswith(b + '_'):
         return True
-    return len(b) > 200 and N[:150] == b[:150]
+    stem = re.sub(r'_[0-9]+$', '', N)
+    return b.startswith(stem) and (len(stem) < len(b))
 
 
 def related(named):
@@ -283,7 +287,20 @@ def judge(root, before, after, named, mounts, extra_allowed_dirs=()):
                 used_infos.add(info_for_loc[0])
                 explained_added.add(info_for_loc[0][0] + '/info/' + info_for_loc[0][1] + '.trashinfo')
             else:
-                oc.why = 'origin-modified'   # still there but not identical (emptied / partly moved)
+                # still there but not identical (emptied / partly moved / partly deleted).
+                # Is everything that is missing from the origin still available in a
+                # complete copy under files/ ?
+                if cands:
+                    oc.why = 'origin-partly-deleted-but-complete-copy-in-trash'
+                    used_payloads.add((cands[0][1], cands[0][2]))
+                    for k in Wd.subtree(after, cands[0][1] + '/files/' + cands[0][2]):
+                        explained_added.add(cands[0][1] + '/files/' + cands[0][2] + k)
+                    if cands[0][0]:
+                        used_infos.add((cands[0][1], cands[0][2]))
+                        explained_added.add(cands[0][1] + '/info/' + cands[0][2] + '.trashinfo')
+                else:
+                    missing = [k for k in bt if (loc + k) not in after or not Wd.same_entry(bt[k], after.get(loc + k))]
+                    oc.why = 'data-lost' if any(bt[k][0] != 'd' for k in missing) else 'origin-modified'
                 for k in bt:
                     if loc + k not in after:
                         explained_removed.add(loc + k)
